@@ -1094,4 +1094,7 @@ def simulate(chan, spec):
         "shape": "|".join(sim.shape + [",".join(fk)]), "nontrivial": nontrivial,
         "cold_calls": chan.cold_calls if chan else 0,
         "extra": {"follow_ups_on_both_lineages": sim.both},
+        # abstract state reached: route x fault x unit class x object kind x registry kind x which edits happened
+        "abstract_state": "|".join(sim.shape + ["late" if any(o["k"] == "late_edit" for o in ops) else "",
+                                                "post" if any(o["k"] == "post_edit" for o in ops) else ""]) if sim.shape else None,
     }
